@@ -220,7 +220,8 @@ reg("C04", ["c04_init.c"],
          "a description; evaluations counts descriptions initialised and judged.",
     assumptions=["the statement orders the rules, the code interleaves them per index within a stage (area order/overlap, "
                  "register order/overlap, register placement/default): the first violation in rule-major order and the "
-                 "first in stage-wise index-major order are both accepted"])
+                 "first in stage-wise index-major order are both accepted"],
+    fuzz={"target": "fuzz/fz_init.c", "runs": {"quick": 320000, "thorough": 32000000}, "max_len": 1600})
 
 reg("C05", ["c05_history.c"],
     rule="'history': " + RT_FAMILY + " with at least one register (every second unit without always-fail registers, "
